@@ -2510,6 +2510,9 @@ int _vnaproperty_yaml_export(vnaproperty_yaml_t *vymlp,
 		int value;
 
 		if ((key = vnaproperty_quote_key(*cpp)) == NULL) {
+		    _vnaproperty_yaml_error(vymlp, VNAERR_SYSTEM,
+			    "vnaproperty_quote_key: %s: %s",
+			    vymlp->vyml_filename, strerror(errno));
 		    free((void *)keys);
 		    return -1;
 		}
